@@ -320,6 +320,12 @@ class Expr2Mixin:
     def ev_ListComp(self, node, st):
         yield from self.comprehension(node, st)
 
+    def ev_SetComp(self, node, st):
+        from .builtins_ import make_set
+        comp = ast.copy_location(ast.ListComp(elt=node.elt, generators=node.generators), node)
+        for s, v in self.comprehension(comp, st):
+            yield s, make_set(self, s, v)
+
     def comprehension(self, node, st, scratch_frame=None):
         """[elt for x in src if cond]  with one generator over a list-like source"""
         if len(node.generators) == 2:
